@@ -193,6 +193,16 @@ class ExprMixin:
 
     # ------------------------------------------------------------------ main dispatcher
     def ev(self, e, st):
+        if self.c.names and isinstance(e, (ast.Call, ast.Attribute, ast.Subscript)):
+            # whole-expression resolution declared by the contract (module constants, external calls with awkward syntax)
+            r = self.c.names.get('expr:' + ast.unparse(e))
+            if r is not None:
+                if r[0] == 'sv':
+                    yield r[1], st
+                    return
+                if r[0] == 'contract':
+                    yield from self.apply_contract(self.reg.contracts[r[1]], [], {}, st, e)
+                    return
         m = getattr(self, 'ev_' + type(e).__name__, None)
         if m is None:
             _unsup('expression %s' % type(e).__name__, e)
